@@ -2,13 +2,16 @@ SPECIFICATION Spec
 CONSTANTS
   Lits <- Lits2
   Ops = {"+", "*"}
-  Forms = {"lit", "ref", "neg", "rl", "lr"}
-  Kinds = {"enumE", "enumI", "const", "constexpr", "macroP", "macroB", "array"}
+  Forms = {"lit", "ref", "rl", "cc"}
+  OpenKinds = {"open", "openC", "openU"}
+  Kinds = {"enumE", "enumI", "const", "macroP", "macroB", "array"}
   MaxDecls = 3
   MaxEnums = 1
 INVARIANT ImplicitOK
 INVARIANT PrimaryOK
 INVARIANT SpliceOK
 INVARIANT NestingOK
+INVARIANT MuOK
+INVARIANT RangeOK
 CONSTRAINT DumpConstraint
 CHECK_DEADLOCK FALSE
